@@ -471,10 +471,16 @@ func Generate(r *hlib.Rng, class string, mtime int64) *Gen {
 		}
 	}
 	if o.Located {
+		rootMap := r.Chance(1, 3)
 		for _, z := range g.Zones {
-			if r.Chance(3, 4) {
+			if r.Chance(3, 4) && !(rootMap && r.Chance(3, 4)) {
 				g.Map("M", z, "m1", true)
 			}
+		}
+		if rootMap {
+			// a catch-all: the wildcard map of the root is the last candidate of the label-by-label
+			// search and applies to every name without a more specific map
+			g.add("M", "M"+wildText(Name{}, true)+":m1")
 		}
 		g.Subnet(locA, "10.0.0.0/8", "m1")
 		g.Subnet(locB, "10.1.0.0/16", "m1")
@@ -487,6 +493,9 @@ func Generate(r *hlib.Rng, class string, mtime int64) *Gen {
 				if r.Chance(1, 2) {
 					g.Map("8", z, "e1", true)
 				}
+			}
+			if r.Chance(1, 4) {
+				g.add("8", "8"+wildText(Name{}, true)+":e1")
 			}
 			g.Subnet(locA, "10.0.0.0/8", "e1")
 			g.Subnet(locB, "172.16.0.0/12", "e1")
